@@ -363,3 +363,9 @@ def strlist_same(a, b):
 def strlist_joined(l, sep):
     """hooked"""
     return sep.join(l)
+
+
+def hdr_is_informational(headers):
+    """The header list is an informational (1xx) response: utilities.is_informational_response (layer 2 contract)."""
+    from h2.utilities import is_informational_response
+    return is_informational_response(list(headers))
